@@ -93,7 +93,8 @@ class Limits:
                     r.append("negative_hold_power")
                 elif v > self.hold_upper:
                     r.append("hold_power_above_max")
-                elif v > 0 and not self.hold_allowed:
+                elif v > 0 and not self.hold_allowed and method != "timed_enable":
+                    # (a hardware-timed hold is not "left held on": no statement for timed_enable)
                     r.append("hold_not_allowed")
             if method in ("enable", "rule_hold") and not self.hold_allowed and not \
                     [x for x in r if "hold" in x]:
@@ -122,14 +123,14 @@ class Limits:
         elif self.max_pulse_power is not None and power > self.max_pulse_power:
             out.append(("pulse_power_above_max", what))
 
-    def _hold_part(self, out, power, what, need_positive_permission=True):
+    def _hold_part(self, out, power, what):
         if not is_number(power):
             out.append(("non_numeric_hold_power", what))
         elif power < 0:
             out.append(("negative_hold_power", what))
         elif power > self.hold_upper:
             out.append(("hold_power_above_max", what))
-        elif power > 0 and not self.hold_allowed:
+        elif power > 0 and not self.hold_allowed and what != "timed_enable":
             out.append(("hold_not_allowed", what))
 
     def command_faults(self, ev):
@@ -366,6 +367,7 @@ class Monitor:
                 rec["cmds"].append(ev["seq"])
         self.obs["hw_" + ev["kind"]] += 1
         who = self._caller(3)
+        ev["via"] = who
         if not who.startswith("via_driver_"):
             who = "hw_" + who
             self.obs[who] = self.obs.get(who, 0) + 1
@@ -395,6 +397,9 @@ class Monitor:
         try:
             f = sys._getframe(depth)
             mod = f.f_globals.get("__name__", "?")
+            while mod.startswith("mpf.platforms.") and not mod.endswith("driver_light_platform") and f.f_back:
+                f = f.f_back            # SmartVirtualDriver -> super(): look at who called the platform driver
+                mod = f.f_globals.get("__name__", "?")
             if mod == "mpf.devices.driver":
                 return "via_driver_" + f.f_code.co_name.lstrip("_")
             if mod.startswith("checks.") or mod.startswith("vlib."):
@@ -584,8 +589,12 @@ class Monitor:
                         sw = None
                     if hold_since is not None and dur is not None and t > hold_since[0] + dur + EPS:
                         self.clauses["hold_limit"] += 1
-                        self.violation("hold_limit", "held_beyond_max_hold_duration",
-                                       {"coil": lim.name, "held_since": self._ev_short(hold_since[1]),
+                        sig = "held_beyond_max_hold_duration"
+                        if hold_since[1].get("via") == "via_platform_controller":
+                            # enable issued by SoftwareEosRepulseManager straight on the platform driver
+                            sig = "sw_eos_repulse_hold_ignores_max_hold_duration"
+                        self.violation("hold_limit", sig,
+                                       {"coil": lim.name, "enabled_by": hold_since[1].get("via"), "held_since": self._ev_short(hold_since[1]),
                                         "max_hold_duration_s": dur, "still_on_at": round(t, 6),
                                         "next_event": ev["kind"]})
                         hold_since = None
